@@ -18,6 +18,7 @@ specification:
   shared      2-3 Type0 fonts (different Encoding and/or ToUnicode) over ONE indirect descendant CIDFont, font
               caching on, fonts interleaved on one page or spread over two pages
   ws1         one-byte identity font, Tw != 0, one-byte code 32 shown (TAGGED: known finding)
+  (tag)       tounicode / ttf / mixed CJK documents are read a second time with output_type="tag"
   vdef        vertical default position vector (w0/2 from W/DW) — own family, tag kept for classification
 
 CMapDB.get_cmap(name).decode and CMapDB.get_unicode_map(...).get_unichr are also
@@ -52,7 +53,11 @@ RULE = (
     "shared: 2-3 Type0 fonts differing in Encoding (1-/2-byte, H/V) and/or ToUnicode over one shared indirect CIDFont, "
     "caching on, interleaved lines on one or two pages, each line judged by its own font; "
     "text state: Tc/Tw/Tz drawn for about half of the ident/adv/shared and a third of the tounicode cases, and with "
-    "Tw != 0 the code <0020> (CID 32) leads every line of a two-byte font. "
+    "Tw != 0 the code <0020> (CID 32) leads every line of a two-byte font; W/W2 range entries ending at CID 65535 (65534 "
+    "as control) with <FFFE><FFFF> shown; CIDSystemInfo with indirect dictionary / Registry / Ordering in the collection, "
+    "legacy-CMap and TrueType families; the tounicode, ttf and mixed CJK cases are also read through "
+    "extract_text_to_fp(output_type='tag') and its character data compared with the same expected text (a code without "
+    "Unicode value contributes nothing and does not end the operand). "
     "distinct = distinct case descriptions; non-trivial = at least one glyph expected. "
     "Left out as undefined/ambiguous: bfrange whose last destination byte would overflow (9.10.3), destinations that are "
     "not UTF-16BE (odd length, lone surrogates), a source code defined twice, conflicting overlapping W/W2 entries, "
@@ -288,9 +293,14 @@ def _add_cidfont(doc: Doc, font: Dict[str, Any]) -> Ref:
             data_enc = data
         fd["FontFile2"] = doc.add(Stream(sd, data_enc))
     reg, ordering, supp = font["ros"]
+    how = font.get("csi") or ""          # letters: d = dictionary, r = /Registry, o = /Ordering given by reference
+    csi: Any = {"Registry": doc.add(reg.encode()) if "r" in how else reg.encode(),
+                "Ordering": doc.add(ordering.encode()) if "o" in how else ordering.encode(), "Supplement": supp}
+    if "d" in how:
+        csi = doc.add(csi)
     cid: Dict[str, Any] = {
         "Type": N("Font"), "Subtype": N(font.get("cidsub", "CIDFontType2")), "BaseFont": N("VFCID"),
-        "CIDSystemInfo": {"Registry": reg.encode(), "Ordering": ordering.encode(), "Supplement": supp},
+        "CIDSystemInfo": csi,
         "FontDescriptor": doc.add(fd),
     }
     if font.get("cidsub", "CIDFontType2") == "CIDFontType2" and font.get("cidtogid"):
@@ -614,7 +624,7 @@ def realise(case: Dict[str, Any], apply_ws: bool = True):
         font: Dict[str, Any] = {"cmap": name, "enc_form": form, "nbytes": nbytes, "vertical": vertical,
                                 "ros": ["Adobe", "Identity", 0], "cidsub": case.get("cidsub", "CIDFontType2"),
                                 "cidtogid": case.get("cidtogid", False)}
-        for k in ("W", "DW", "W2", "DW2", "DW_ref", "DW2_ref", "tounicode", "ttf", "ttf_flate", "MissingWidth"):
+        for k in ("W", "DW", "W2", "DW2", "DW_ref", "DW2_ref", "tounicode", "ttf", "ttf_flate", "MissingWidth", "csi"):
             if case.get(k) is not None:
                 font[k] = case[k]
         umap: Optional[Dict[int, str]] = None
@@ -660,7 +670,7 @@ def realise(case: Dict[str, Any], apply_ws: bool = True):
         enc = case["enc"]
         coll = case["coll"]
         font = {"cmap": name, "enc_form": "name", "ros": ["Adobe", coll, SUPPLEMENT[coll]],
-                "cidsub": case.get("cidsub", "CIDFontType0")}
+                "cidsub": case.get("cidsub", "CIDFontType0"), "csi": case.get("csi")}
         umap2: Optional[Dict[int, str]] = None
         if case.get("tounicode") is not None:
             font["tounicode"] = case["tounicode"]
@@ -807,6 +817,10 @@ def check_case(case: Dict[str, Any]) -> Tuple[List[Tuple[str, str]], Dict[str, A
             fails += _compare_tagged_ws1(case, exp, obs, vertical, fs)
         else:
             fails += [(k, "%s: %s" % (_brief(case), d)) for k, d in compare(fam, vertical, fs, exp, obs)]
+    if fam in ("tounicode", "ttf") or (fam in ("cjk_legacy", "cjk_unicode") and case.get("tagrun")):
+        r = check_tag(case, data, exp)
+        stats["tag_runs"] = 1
+        fails += r
     # direct API
     if fam == "ident":
         apiname = {"DLIdent-H": "Identity-H", "DLIdent-V": "Identity-V"}.get(case["cmap"], case["cmap"])
@@ -826,6 +840,53 @@ def check_case(case: Dict[str, Any]) -> Tuple[List[Tuple[str, str]], Dict[str, A
             seen.add(k)
             uniq.append((k, d))
     return uniq, stats
+
+
+def tag_body(data: bytes) -> Tuple[Optional[str], Optional[Tuple[str, str]]]:
+    """Character data that extract_text_to_fp(output_type='tag') writes between <page ...> and </page>."""
+    import html
+
+    from pdfminer.high_level import extract_text_to_fp
+
+    out = io.BytesIO()
+    try:
+        extract_text_to_fp(io.BytesIO(data), out, output_type="tag", codec="utf-8", laparams=None)
+    except Exception as e:  # noqa: BLE001
+        return None, (_exc_key(e), "extract_text_to_fp(output_type='tag'): %r" % (e,))
+    raw = out.getvalue()
+    head_end = raw.find(b">")
+    if not raw.startswith(b"<page ") or head_end < 0 or not raw.endswith(b"</page>\n") or raw.count(b"<page ") != 1:
+        return None, ("tag_frame", "unexpected frame of the tag output: %r" % (raw[:120],))
+    try:
+        body = raw[head_end + 1:-len(b"</page>\n")].decode("utf-8")
+    except UnicodeDecodeError as e:
+        return None, ("tag_codec", "tag output is not UTF-8: %r" % (e,))
+    return html.unescape(body), None
+
+
+def check_tag(case: Dict[str, Any], data: bytes, exp: List[Dict[str, Any]]) -> List[Tuple[str, str]]:
+    """TagExtractor (pdf2txt -t tag) writes, for every string operand, the Unicode text of its codes in order; a
+    code without Unicode value contributes nothing and does not end the operand (rule read off the unchanged
+    TagExtractor.render_string: PDFUnicodeNotDefined is skipped per glyph); the text is SGML-escaped."""
+    want = ""
+    for e in exp:
+        if e["opt"]:
+            continue
+        if e.get("text") is None:
+            return []  # a glyph whose text the reference leaves open (usecmap, ambiguous TrueType glyph)
+        if e.get("cid") is not None and e["text"] == cid_text(e["cid"]):
+            continue   # no Unicode value: nothing is written
+        want += e["text"]
+    got, err = tag_body(data)
+    if err is not None:
+        return [(err[0], "%s: %s" % (_brief(case), err[1]))]
+    if got != want:
+        k = 0
+        while k < min(len(got), len(want)) and got[k] == want[k]:
+            k += 1
+        return [("tag_text:" + case["fam"], "%s: tag output differs from the expected text at character %d of %d "
+                 "(got %d characters): ...%r, expected ...%r" % (_brief(case), k, len(want), len(got), got[k:k + 12], want[k:k + 12]))]
+    return []
 
 
 def check_shared(case: Dict[str, Any]) -> Tuple[List[Tuple[str, str]], Dict[str, Any]]:
@@ -1278,10 +1339,17 @@ def _cjk_lines(rng: Optional[random.Random], text: str, per_show: int = 16, per_
     return lines
 
 
-def make_cjk_case(cm: Dict[str, Any], text: str, rng: Optional[random.Random], fs: Num = 10) -> Dict[str, Any]:
-    return {"fam": cm["fam"], "cmap": cm["cmap"], "enc": cm["enc"], "coll": cm["coll"],
+CSI_FORMS = ["", "o", "r", "ro", "d", "do", "dr", "dro"]
+
+
+def make_cjk_case(cm: Dict[str, Any], text: str, rng: Optional[random.Random], fs: Num = 10, variant: int = 0) -> Dict[str, Any]:
+    case = {"fam": cm["fam"], "cmap": cm["cmap"], "enc": cm["enc"], "coll": cm["coll"],
             "cidsub": "CIDFontType0" if rng is None or rng.random() < 0.5 else "CIDFontType2",
             "fs": fs, "lines": _cjk_lines(rng, text)}
+    csi = CSI_FORMS[variant % 8] if rng is None else rng.choice(CSI_FORMS)
+    if csi:
+        case["csi"] = csi
+    return case
 
 
 def gen_cjk_mixed(rng: random.Random, cm: Dict[str, Any]) -> Dict[str, Any]:
@@ -1295,7 +1363,9 @@ def gen_cjk_mixed(rng: random.Random, cm: Dict[str, Any]) -> Dict[str, Any]:
             out.append(rng.choice(mix))
         else:
             out.append(rng.choice(dom))
-    return make_cjk_case(cm, "".join(out), rng, rng.choice(FS_CHOICES))
+    case = make_cjk_case(cm, "".join(out), rng, rng.choice(FS_CHOICES))
+    case["tagrun"] = True  # also read through extract_text_to_fp(output_type="tag")
+    return case
 
 
 def gen_tu_nonid(rng: random.Random) -> Dict[str, Any]:
@@ -1440,9 +1510,13 @@ def gen_ttf(rng: random.Random) -> Dict[str, Any]:
     near.update(rng.randrange(1, 65536) for _ in range(4))
     codes = gids + [g for g in near if 0 < g < 65536 and g not in c2g.values()]
     rng.shuffle(codes)
-    return {"fam": "ttf", "cmap": "Identity-H", "enc_form": "name", "nbytes": 2, "vertical": False,
+    case = {"fam": "ttf", "cmap": "Identity-H", "enc_form": "name", "nbytes": 2, "vertical": False,
             "cidsub": "CIDFontType2", "cidtogid": rng.random() < 0.5, "ttf": spec, "ttf_flate": rng.random() < 0.5,
             "fs": rng.choice(FS_CHOICES), "lines": _chunk_codes(rng, codes, 2)}
+    csi = rng.choice(CSI_FORMS)
+    if csi:
+        case["csi"] = csi
+    return case
 
 
 # ---- W / DW / W2 / DW2 ------------------------------------------------------
@@ -1500,7 +1574,16 @@ def gen_w(rng: random.Random) -> Tuple[Dict[str, Any], List[int]]:
             for c in range(it["c1"], it["c2"] + 1):
                 m[c] = it["w"]
             cids += [it["c1"] - 1, it["c1"], it["c2"], it["c2"] + 1, (it["c1"] + it["c2"]) // 2]
-    return {"items": items, "ref": rng.random() < 0.2}, [c for c in cids if 0 <= c < 65536]
+    w: Dict[str, Any] = {"items": items, "ref": rng.random() < 0.2}
+    if rng.random() < 0.3:
+        # a range entry that ends at the last CID 65535 (or, as a control, at 65534), width unlike any DW
+        c2 = rng.choice([65535, 65535, 65534])
+        c1 = c2 - rng.choice([0, 1, 7, 200])
+        if not any(c in m for c in range(c1, 65536)):
+            items.insert(rng.randint(0, len(items)), {"t": "r", "c1": c1, "c2": c2, "w": rng.choice([777, "123.5", 1250])})
+            w["top"] = c2
+            cids += [c1 - 1, c1, 65534, 65535]
+    return w, [c for c in cids if 0 <= c < 65536]
 
 
 def gen_w2(rng: random.Random) -> Tuple[Dict[str, Any], List[int]]:
@@ -1544,7 +1627,21 @@ def gen_w2(rng: random.Random) -> Tuple[Dict[str, Any], List[int]]:
             for c in range(it["c1"], it["c2"] + 1):
                 m[c] = [it["w1"], it["vx"], it["vy"]]
             cids += [it["c1"] - 1, it["c1"], it["c2"], it["c2"] + 1, (it["c1"] + it["c2"]) // 2]
-    return {"items": items, "ref": rng.random() < 0.2}, [c for c in cids if 0 <= c < 65536]
+    w2: Dict[str, Any] = {"items": items, "ref": rng.random() < 0.2}
+    if rng.random() < 0.3:
+        c2 = rng.choice([65535, 65535, 65534])
+        c1 = c2 - rng.choice([0, 1, 7, 200])
+        if not any(c in m for c in range(c1, 65536)):
+            items.insert(rng.randint(0, len(items)), {"t": "r", "c1": c1, "c2": c2, "w1": rng.choice([-777, "-123.5", -1250]),
+                                                      "vx": rng.choice([400, 250]), "vy": rng.choice([800, 900])})
+            w2["top"] = c2
+            cids += [c1 - 1, c1, 65534, 65535]
+    return w2, [c for c in cids if 0 <= c < 65536]
+
+
+def _top_cids(case: Dict[str, Any]) -> List[int]:
+    """<FFFE> and <FFFF> are always shown when a W / W2 range entry ends up there."""
+    return [65534, 65535] if any((case.get(k) or {}).get("top") for k in ("W", "W2")) else []
 
 
 def gen_adv(rng: random.Random, vertical: bool) -> Dict[str, Any]:
@@ -1575,6 +1672,7 @@ def gen_adv(rng: random.Random, vertical: bool) -> Dict[str, Any]:
     if len(cids) > 60:
         cids = rng.sample(cids, 60)
     cids += [rng.randrange(65536) for _ in range(rng.randint(1, 6))]
+    cids = list(dict.fromkeys(cids + _top_cids(case)))
     rng.shuffle(cids)
     case["lines"] = _chunk_codes(rng, cids, 2, per_line=rng.choice([5, 12, 40]))
     ts = gen_ts(rng, 0.6)
@@ -1637,6 +1735,7 @@ def gen_shared(rng: random.Random) -> Dict[str, Any]:
         codes += [c for c in rng.sample(wc, min(len(wc), 10)) if c < top]
         codes += [c for c in rng.sample(w2c, min(len(w2c), 6)) if c < top]
         codes += [rng.randrange(top) for _ in range(4)]
+        codes += [c for c in _top_cids(case) if c < top]
         rng.shuffle(codes)
         for ln in _chunk_codes(rng, codes, nbytes, per_line=rng.choice([8, 20, 40])):
             ln["font"] = i
@@ -1700,6 +1799,11 @@ def minimums(tier: str) -> Dict[str, int]:
                 "cases:ws1": 30, "ts_cases": 800, "ts_tc_nonzero": 400, "ts_tz_not_100": 350, "ts_tz_not_100_vertical": 150,
                 "ts_tw_nonzero": 450, "ts_tw_with_twobyte_cid32": 400, "ts_tw_with_twobyte_cid32_vertical": 150,
                 "ts_tw_with_onebyte_code32": 30,
+                "tag_runs": 1500, "tag_runs:tounicode": 700, "tag_runs:ttf": 400, "tag_operands_unmapped_then_mapped": 2500,
+                "csi_indirect_cases": 1000, "csi_indirect_ordering:collection": 300, "csi_indirect_registry:collection": 300,
+                "csi_indirect_dict:collection": 200, "csi_indirect_ordering:ttf": 200, "csi_indirect_registry:ttf": 200,
+                "csi_indirect_dict:ttf": 200, "w_range_to_65535": 50, "w_range_to_65534": 20, "w2_range_to_65535": 60,
+                "w2_range_to_65534": 25,
                 "seen:cjk_cmaps": 48, "seen:ident_kinds": 8, "seen:tu_headers": 3, "seen:ttf_layouts": 10,
                 "class:kana": 6000, "class:hangul": 3500, "class:ideograph": 25000}
     return {"evaluations": 60000, "distinct": 58000, "glyphs_compared": 5000000,
@@ -1717,6 +1821,11 @@ def minimums(tier: str) -> Dict[str, int]:
             "cases:ws1": 200, "ts_cases": 10000, "ts_tc_nonzero": 5000, "ts_tz_not_100": 4500, "ts_tz_not_100_vertical": 2000,
             "ts_tw_nonzero": 5500, "ts_tw_with_twobyte_cid32": 5000, "ts_tw_with_twobyte_cid32_vertical": 2000,
             "ts_tw_with_onebyte_code32": 200,
+            "tag_runs": 28000, "tag_runs:tounicode": 15000, "tag_runs:ttf": 9000, "tag_operands_unmapped_then_mapped": 60000,
+            "csi_indirect_cases": 15000, "csi_indirect_ordering:collection": 4000, "csi_indirect_registry:collection": 4000,
+            "csi_indirect_dict:collection": 4000, "csi_indirect_ordering:ttf": 3500, "csi_indirect_registry:ttf": 3500,
+            "csi_indirect_dict:ttf": 3500, "w_range_to_65535": 1200, "w_range_to_65534": 500, "w2_range_to_65535": 1200,
+            "w2_range_to_65534": 600,
             # the exhaustive part is deterministic: the sizes of the codec-defined domains summed over the 48 CMaps
             "cjk_exhaustive_chars": 636000, "class:kana": 8000, "class:hangul": 117000, "class:ideograph": 510000,
             "seen:cjk_cmaps": 48, "seen:ident_kinds": 8, "seen:tu_headers": 3, "seen:ttf_layouts": 10}
@@ -1766,6 +1875,30 @@ def _account(case: Dict[str, Any], stats: Dict[str, Any], rec) -> None:
     fam = case["fam"]
     rec.count("cases:" + fam)
     rec.count("glyphs_compared", stats["glyphs"])
+    if stats.get("tag_runs"):
+        rec.count("tag_runs")
+        rec.count("tag_runs:" + fam)
+        if fam == "tounicode" and not case["tounicode"].get("usecmap"):
+            umap = TU.evaluate(case["tounicode"])
+            nb = case["nbytes"]
+            for ln in case["lines"]:
+                for op in ln["shows"]:
+                    for it in ([op[1]] if op[0] == "Tj" else op[1]):
+                        if isinstance(it, (bytes, bytearray)):
+                            flags = [int.from_bytes(it[k:k + nb], "big") in umap for k in range(0, len(it) - nb + 1, nb)]
+                            if False in flags and True in flags[flags.index(False):]:
+                                rec.count("tag_operands_unmapped_then_mapped")
+    if case.get("csi") and fam in ("cjk_legacy", "cjk_unicode", "ttf", "tu_nonid"):
+        rec.count("csi_indirect_cases")
+        for letter, name in (("d", "dict"), ("r", "registry"), ("o", "ordering")):
+            if letter in case["csi"]:
+                rec.count("csi_indirect_%s:%s" % (name, "ttf" if fam == "ttf" else "collection"))
+    for key, name in (("W", "w"), ("W2", "w2")):
+        top = (case.get(key) or {}).get("top")
+        if top and fam in ("adv_h", "adv_v", "shared", "vdef"):
+            if key == "W" and fam == "adv_v":
+                continue
+            rec.count("%s_range_to_%d" % (name, top))
     if fam == "ident":
         rec.see("ident_kinds", "%s/%s" % (case["cmap"], case["enc_form"]))
         for ln in case["lines"]:
@@ -1936,7 +2069,7 @@ def run_shard(spec: Dict[str, Any], rec) -> None:
             for ch in chunk:
                 rec.count("class:" + classes[ch])
             rec.count("api_cjk_chars", len(chunk))
-            _run_case(make_cjk_case(cm, chunk, None), rec)
+            _run_case(make_cjk_case(cm, chunk, None, variant=i // 96), rec)
         for _ in range(spec["mixed"]):
             case = gen_cjk_mixed(rng, cm)
             rec.count("cjk_mixed_cases")
